@@ -154,6 +154,7 @@ def run_case(spec):
     pake_first = late_words and any(i == "got_key" for (_, _, i) in drv.b.binputs) is not None and drv.b_words
     # derive_key sampling (before close)
     derive_checks = 0
+    repeated = [0]
     viol = []
 
     def wit():
@@ -181,6 +182,10 @@ def run_case(spec):
                                   for _ in range(rng.choice([1, 2, 8, 64, 255])))
                 n = rng.choice([1, 16, 16, 32, 33, 64, 255])
                 try:
+                    if rng.random() < 0.4:
+                        # the same purpose asked for before, with another length (any memoisation must not leak)
+                        (drv.a if rng.random() < 0.5 else drv.b).w.derive_key(purpose, rng.choice([1, 8, 16, 300]))
+                        repeated[0] += 1
                     da = drv.a.w.derive_key(purpose, n)
                     db = drv.b.w.derive_key(nfc(purpose) if rng.random() < 0.3 else purpose, n)
                 except Exception as e:
@@ -246,7 +251,7 @@ def run_case(spec):
     s01 = int(any(k[1] == "S01" and k[2] == "got_code" for k in MON.cov))   # Key really went S00->S01->S11
     return {"violations": viol, "nontrivial": nontrivial,
             "counters": {"match_cases": int(expect_match), "mismatch_cases": int(not expect_match and met),
-                         "never_met_cases": int(not met), "pake_before_code": s01, "derive_checks": derive_checks,
+                         "never_met_cases": int(not met), "pake_before_code": s01, "derive_checks": derive_checks, "derive_repeated_purpose": repeated[0],
                          "class_" + kind: 1, "bystander_pairs": int(by is not None)},
             "sample": {"spec": spec, "code_a": code_a, "code_b": code_b, "appid_a": appid_a, "appid_b": appid_b,
                        "expect_match": expect_match, "b_mode": b_mode, "late_words": late_words,
